@@ -1,6 +1,7 @@
 //! C20 — RESP codec: round trip, chunking independence, totality.
 //!
 //! See /verif/rs/README.md for the oracles and the CLI.
+#![cfg_attr(miri, allow(dead_code, unused_imports))]
 
 use ferrous::protocol::parser::parse_resp_frame;
 use ferrous::protocol::serializer::serialize_to_vec;
@@ -1636,7 +1637,7 @@ fn full_main(args: &Args) -> Report {
 fn miri_main(args: &Args) -> Report {
     let mut rep = Report::new();
     check_noresponse(&mut rep);
-    let n = args.max_cases.unwrap_or(60);
+    let n = args.max_cases.unwrap_or(40);
     for i in 0..n {
         roundtrip_case(&mut rep, mix(args.seed, 1, i), true);
     }
